@@ -273,9 +273,28 @@ func scC11(r *Run) {
 	w.finish()
 }
 
+// scC11LLStub: the Low-Latency clauses against a Low-Latency origin of pre-generated content whose parts are
+// addressed by URIs of their own or as byte ranges of their segment (the library's own muxer only does the former).
+func scC11LLStub(r *Run) {
+	T := r.T
+	o := genLLOrigin(r, Pick(T, 1.0, 1.0, 0.5, 0.1))
+	w := newCliWorld(r, o, o.primaryURL(), plainFate(T, Pick(T, 0, 5, 50)))
+	o.net = w.net
+	w.limit = 2 * time.Minute
+	w.afterWait = time.Second
+	r.Tracef("ll origin style=%s parts=%d segs=%d window=%d skip=%v", o.style, len(o.parts), len(o.segParts), o.window, o.canSkip)
+	w.run()
+	r.Tracef("end: wait=%v err=%s requests=%d", w.waitSeen, describeErr(w.waitErr), len(w.net.log))
+	oracleLL(r, w, o)
+	r.Cell("c11 ll-stub style=%s", o.style)
+	r.Stats.NonTrivial = len(w.net.log) >= 4
+	w.finish()
+}
+
 func init() {
-	register(&PropDef{ID: "C11", Quick: 7000, Thorough: 300000, Profiles: []ProfileDef{
+	register(&PropDef{ID: "C11", Quick: 8000, Thorough: 320000, Profiles: []ProfileDef{
 		{Name: "stub", Share: 6, Sc: scC11},
 		{Name: "ll-muxer", Share: 1, Sc: scC11LL},
+		{Name: "ll-stub", Share: 1, Sc: scC11LLStub},
 	}})
 }
